@@ -36,6 +36,8 @@ def indexed_file(draw, tier, max_records=30, min_records=1):
             rec["tags"] = rec["tags"] + ["zq:Z:" + "k" * pad]
         if draw(st.integers(0, 4)) == 0:
             rec["name"] = rec["name"] + " comment=%d" % i
+        elif draw(st.integers(0, 9)) == 0:
+            rec["name"] = "#" + rec["name"] + "/ccs"  # a read name may start with any printable character
         lines.append(conv.stable_line(g["nodes"], rec) if stable else gen_gaf.record_line(rec))
     data_len = sum(len(l) + 1 for l in lines)
     comp = None
